@@ -459,6 +459,67 @@ Proof.
            ++ intro H. inversion H; subst; try congruence; try (split; [reflexivity | assumption]).
 Qed.
 
+(* ---------- the regular expression the code builds denotes the same language ---------- *)
+Lemma rmatch_star_dot n : rmatch (RStar RDot) n <-> Forall (fun x => x <> 10) n.
+Proof.
+  split.
+  - intro H. remember (RStar RDot) as r eqn:E. induction H; try discriminate.
+    + constructor.
+    + injection E as E. subst r. apply Forall_app. split; [|apply IHrmatch2; reflexivity].
+      inversion H; subst. constructor; [assumption | constructor].
+  - induction n as [|x n IH]; intro H.
+    + apply MStar0.
+    + inversion H; subst. change (x :: n) with ([x] ++ n). apply MStarApp; [apply MDot; assumption | apply IH; assumption].
+Qed.
+
+Lemma rmatch_cat_inv r s n : rmatch (RCat r s) n -> exists a b, n = a ++ b /\ rmatch r a /\ rmatch s b.
+Proof. intro H. inversion H; subst. exists a, b. tauto. Qed.
+
+Lemma Wild_star_prefix m a b : Forall (fun x => x <> 10) a -> Wild m b -> Wild (42 :: m) (a ++ b).
+Proof.
+  induction a as [|x a IH]; intros Ha Hb; simpl.
+  - apply W_star_done, Hb.
+  - inversion Ha; subst. apply W_star_more; [assumption | apply IH; assumption].
+Qed.
+
+Lemma Wild_star_split m n : Wild (42 :: m) n ->
+  exists a b, n = a ++ b /\ Forall (fun x => x <> 10) a /\ Wild m b.
+Proof.
+  intro H. remember (42 :: m) as m0 eqn:E. induction H; try discriminate.
+  - injection E as E. subst m0. exists [], n. repeat split; [constructor | assumption].
+  - destruct (IHWild E) as [a [b [E1 [E2 E3]]]]. injection E as E. subst.
+    exists (x :: a), b. repeat split; [constructor; assumption | assumption].
+  - injection E as E1 E2. congruence.
+Qed.
+
+Definition regex_of_chars (m : str) : regex := fold_right (fun c r => RCat (regex_of_char c) r) REps m.
+
+Lemma regex_Wild m : forall n, rmatch (regex_of_chars m) n <-> Wild m n.
+Proof.
+  induction m as [|c m IH]; intro n; simpl.
+  - split; intro H; inversion H; constructor.
+  - unfold regex_of_char. destruct (c =? 63) eqn:E63; [|destruct (c =? 42) eqn:E42].
+    + apply Z.eqb_eq in E63. subst c. split; intro H.
+      * apply rmatch_cat_inv in H as [a [b [E [Ha Hb]]]]. inversion Ha; subst. simpl. apply W_one; [assumption | apply IH, Hb].
+      * inversion H; subst; try congruence. change (x :: n0) with ([x] ++ n0).
+        apply MCat; [apply MDot; assumption | apply IH; assumption].
+    + apply Z.eqb_eq in E42. subst c. split; intro H.
+      * apply rmatch_cat_inv in H as [a [b [E [Ha Hb]]]]. subst n.
+        apply Wild_star_prefix; [apply rmatch_star_dot, Ha | apply IH, Hb].
+      * apply Wild_star_split in H as [a [b [E [Ha Hb]]]]. subst n.
+        apply MCat; [apply rmatch_star_dot, Ha | apply IH, Hb].
+    + apply Z.eqb_neq in E63, E42. split; intro H.
+      * apply rmatch_cat_inv in H as [a [b [E [Ha Hb]]]]. inversion Ha; subst. simpl. apply W_char; [assumption | assumption | apply IH, Hb].
+      * inversion H; subst; try congruence. change (c :: n0) with ([c] ++ n0).
+        apply MCat; [apply MLit | apply IH; assumption].
+Qed.
+
+(* dos_name_matches(name, mask) - the modelled matcher - holds exactly when name.upper() is in the language of
+   the regular expression built from mask *)
+Theorem regex_matches name mask :
+  rmatch (regex_of_mask mask) (upper name) <-> dos_name_matches name mask = true.
+Proof. unfold dos_name_matches, regex_of_mask. fold (regex_of_chars (upper mask)). rewrite regex_Wild, wmatch_Wild. tauto. Qed.
+
 Theorem name_matches_case name name' mask mask' :
   upper name = upper name' -> upper mask = upper mask' ->
   dos_name_matches name mask = dos_name_matches name' mask'.
